@@ -212,6 +212,11 @@ def m_bool(vm, args, kw):
 
 
 def m_str(vm, args, kw):
+    if len(args) == 1 and isinstance(args[0], SInt):
+        from . import models_str as ms
+        return ms.mk_str(decimal_atoms(vm, args[0]))
+    if len(args) == 1 and isinstance(args[0], SBool):
+        return 'True' if vm.truth(args[0]) else 'False'
     if args and vm.is_interp_class(type(args[0])) and not isinstance(args[0], Sym):
         m = vm.static_lookup(type(args[0]), '__str__')
         if m is not None and vm.is_interp_callable(m):
@@ -391,60 +396,96 @@ def m_setattr(vm, args, kw):
 
 
 def m_format_mod(vm, args, kw):
-    """bytes/str % args for %d %i %s %x (enough for the anchored code)."""
+    """bytes/str % args for %d %i %s %x %r (enough for the anchored code).  Works on atom lists (bytes values or
+    code points) so that symbolic ints render into symbolic digits in both bytes and str."""
+    from . import models_str as ms
+    from .vm import SymText
     fmt, vals = args
     if not isinstance(vals, tuple):
         vals = (vals,)
-    is_b = isinstance(fmt, bytes)
+    is_b = isinstance(fmt, (bytes, bytearray))
     out = []
     i = 0
     vi = 0
     n = len(fmt)
+
+    def lit(s):
+        out.extend(list(s) if is_b else [ord(c) for c in s])
     while i < n:
         c = fmt[i:i + 1]
         if c != (b'%' if is_b else '%'):
-            out.extend(list(c) if is_b else [c])
+            lit(c)
             i += 1
             continue
-        spec = fmt[i + 1:i + 2]
+        j = i + 1
+        while j < n and (fmt[j:j + 1] in ((b'0', b'1', b'2', b'3', b'4', b'5', b'6', b'7', b'8', b'9', b'.', b'-', b' ', b'+') if is_b
+                                          else tuple('0123456789.- +'))):
+            j += 1
+        flags = fmt[i + 1:j]
+        flags = flags.decode() if is_b else flags
+        spec = fmt[j:j + 1]
         spec = spec.decode() if is_b else spec
-        i += 2
+        i = j + 1
         if spec == '%':
-            out.extend([37] if is_b else ['%'])
+            lit(b'%' if is_b else '%')
             continue
+        if vi >= len(vals):
+            raise TypeError('not enough arguments for format string')
         v = vals[vi]
         vi += 1
-        if spec in 'di':
+        if spec in 'di' and not flags:
+            if isinstance(v, SBool):
+                v = SInt(z3.If(v.e, 1, 0))
             if isinstance(v, SInt):
                 out.extend(decimal_atoms(vm, v))
-            elif isinstance(v, Sym):
-                raise TypeError('%d format: a real number is required')
+            elif isinstance(v, Sym) or not isinstance(v, (int, float)):
+                raise TypeError('%d format: a real number is required, not ' + type(v).__name__)
             else:
-                s = '%d' % v
-                out.extend(list(s.encode()) if is_b else [s])
-        elif spec == 's':
+                lit(('%d' % v).encode() if is_b else '%d' % v)
+        elif spec == 's' and not flags:
             if is_b:
                 if not isinstance(v, (bytes, bytearray, SBytes)):
-                    raise TypeError("%b requires a bytes-like object")
+                    if isinstance(v, SymText):
+                        return v
+                    raise TypeError("%b requires a bytes-like object, or an object that implements __bytes__, not '" +
+                                    type(v).__name__ + "'")
                 out.extend(atoms_of(v))
             else:
-                if deep_sym(v):
-                    from .vm import SymText
+                if isinstance(v, (ms.SStr, str)):
+                    out.extend(ms.str_atoms(v))
+                elif isinstance(v, SInt):
+                    out.extend(decimal_atoms(vm, v))
+                elif deep_sym(v) or isinstance(v, SymText):
                     return SymText([fmt, vals])
-                out.append(str(v))
+                else:
+                    s = vm.call(str, [v], {})
+                    if not isinstance(s, str):
+                        return SymText([fmt, vals])
+                    lit(s)
         else:
             if deep_sym(v):
-                raise Unsupported('format spec %' + spec)
-            s = ('%' + spec) % v
-            out.extend(list(s.encode()) if is_b else [s])
+                return SymText([fmt, vals]) if not is_b else _unsup('format spec %' + flags + spec)
+            s = ('%' + flags + spec) % v
+            lit(s.encode() if is_b else s)
+    if vi != len(vals):
+        raise TypeError('not all arguments converted during string formatting')
     if is_b:
         return mk_bytes(out)
-    return ''.join(out)
+    return ms.mk_str(out)
 
 
-def decimal_atoms(vm, v, max_digits=20):
-    """ASCII decimal rendering of a symbolic int: forks on sign and digit count."""
+def _unsup(msg):
+    raise Unsupported(msg)
+
+
+def decimal_atoms(vm, v, max_digits=80):
+    """ASCII decimal rendering of a symbolic int: forks on sign and digit count; the digits are fresh symbols tied to
+    the value by one linear equation (no div/mod reaches the solver), each with an evaluator for model extension."""
     e = v.e
+    key = ('dec', e.tid)
+    hit = vm.path_cache.get(key)
+    if hit is not None:
+        return list(hit)
     neg = vm.truth(mk_bool(e < 0))
     mag = -e if neg else e
     nd = 1
@@ -452,8 +493,22 @@ def decimal_atoms(vm, v, max_digits=20):
         nd += 1
     if nd >= max_digits:
         raise BoundExceeded('decimal rendering wider than bound')
-    atoms = [z3.simplify(48 + (mag / (10 ** (nd - 1 - i))) % 10) for i in range(nd)]
-    return ([45] if neg else []) + atoms
+    if nd == 1:
+        atoms = [z3.simplify(48 + mag)]
+    else:
+        ds = []
+        for i in range(nd):
+            d = vm._fresh_int('dig', 1 if i == 0 else 0, 9).e
+            z3.DEFS[d.args[0]] = (lambda model, mag=mag, p=10 ** (nd - 1 - i): (z3.evaluate(mag, model) // p) % 10)
+            ds.append(d)
+        tot = z3.IntVal(0)
+        for d in ds:
+            tot = tot * 10 + d
+        vm.add_pc(mag == tot)
+        atoms = [48 + d for d in ds]
+    out = ([45] if neg else []) + atoms
+    vm.path_cache[key] = out
+    return list(out)
 
 
 # --------------------------------------------------------------------------- method models
@@ -490,7 +545,11 @@ def bm_hex(vm, o, args, kw):
 
 def bm_decode(vm, o, args, kw):
     if isinstance(o, SBytes):
-        raise Unsupported('decode symbolic bytes (no SStr in prototype)')
+        from . import models_str as ms
+        enc = (args[0] if args else kw.get('encoding', 'utf-8')).lower().replace('_', '-')
+        if enc not in ('utf-8', 'utf8') or len(args) > 1 or 'errors' in kw:
+            raise Unsupported('decode symbolic bytes as ' + enc)
+        return ms.utf8_decode(vm, o)
     return o.decode(*args, **kw)
 
 
@@ -767,7 +826,7 @@ def split_bytes(vm, e, size):
         return cached
     atoms = []
     for i in range(size):
-        b = vm.new_int('byte', 0, 255).e
+        b = vm._fresh_int('byte', 0, 255).e
         z3.DEFS[b.args[0]] = (lambda model, e=e, i=i: (z3.evaluate(e, model) >> (8 * i)) & 255)
         atoms.append(b)
     total = z3.IntVal(0)
